@@ -166,7 +166,7 @@ def run(ctx):
                 continue
             t = taint_forward(b, [c.dest], call_transfer=lambda cc, ta: 0 in ta and (cc.is_(c12.ADAPT) or cc.is_(r"Option::(unwrap|expect|unwrap_or_default)$")))
             for u in b.calls():
-                if u.args and op_local(u.args[0]) in t and u.is_(r"Iterator::(filter|filter_map|find|find_map|any|all|position|take_while|skip_while|skip|take|step_by)$"):
+                if u.args and op_local(u.args[0]) in t and u.is_(r"Iterator::(filter|filter_map|take_while|skip_while|skip|take|step_by)$"):
                     nfl += 1
                     extra = sorted(set(cc.callee_q.split("::", 1)[1] for cb in closure_bodies(fx, u) for x in tree(cb) for cc in x.calls()
                                        if cc.callee_q and re.match(r"^clap_", cc.callee_q) and not sp_macro(cc.sp) and not re.search(OKP, cc.callee_q)))
@@ -242,15 +242,23 @@ def run(ctx):
     res.floor("R16.3", "zsh name mangling sites", len(zw), 3)
     # zsh reader: parser_of is an exhaustive search of the tree by bin_name (its callers expect() the result)
     po = fx.body("clap_complete::aot::shells::zsh::parser_of")
-    recs = po.calls_to(r"zsh::parser_of$")
+    recs = [c for t in tree(po) for c in t.calls_to(r"zsh::parser_of$")]
     require(fx, res, "R16.3", "zsh-parser_of-exhaustive", po, r"zsh::parser_of$", len(recs), 1, "zsh::parser_of no longer descends into the subcommands")
     for c in recs:
-        bg = [g for g in guard_strs(po, c.bb) if re.match(r"^[TF]:", g) and not re.match(r"^F:eq\(bin_name,", g)]
-        res.check(not bg and expr(po, c.args[0]) == "next(into_iter(get_subcommands(parent)))#Some.0" and expr(po, c.args[1]) == "bin_name", "R16.3", "zsh-parser_of-exhaustive", c.where(),
+        cbody = c.body
+        if cbody is po:
+            bg = [g for g in guard_strs(po, c.bb) if re.match(r"^[TF]:", g) and not re.match(r"^F:eq\(bin_name,", g)]
+            okr = not bg and expr(po, c.args[0]) == "next(into_iter(get_subcommands(parent)))#Some.0" and expr(po, c.args[1]) == "bin_name"
+        else:
+            # iterator form: parent.get_subcommands().find_map(|sc| parser_of(sc, bin_name))
+            feed = closure_feed(fx, cbody)
+            bg = [g for g in guard_strs(cbody, c.bb) if re.match(r"^[TF]:", g)]
+            okr = bool(feed) and feed[1].is_(r"Iterator::find_map$") and feed[2] == "get_subcommands(parent)" and not bg
+        res.check(okr, "R16.3", "zsh-parser_of-exhaustive", c.where(),
                   "every subcommand is searched", "zsh::parser_of searches a subcommand only under %s: a command whose path merely shares a prefix with a sibling is not found and the generator's expect() panics" % bg)
     early = [d for d in po.def_sites(0) if isinstance(d[3], dict) and d[3]["k"] == "agg" and d[3].get("variant") == "Some" and "parser_of(" in expr(po, d[3]["ops"][0])]
     other = [d for d in po.def_sites(0) if not isinstance(d[3], dict) and d[3].callee_q.endswith("parser_of")]
-    res.check(not other and all(any(re.match(r"^V1:parser_of\(", g) for g in guard_strs(po, d[0])) for d in early), "R16.3", "zsh-parser_of-continues-on-none", po.where(),
+    res.check((not other or all(c.body is not po for c in recs)) and all(any(re.match(r"^V1:parser_of\(", g) for g in guard_strs(po, d[0])) for d in early), "R16.3", "zsh-parser_of-continues-on-none", po.where(),
               "a branch's result ends the search only when it is Some", "zsh::parser_of returns a branch's result even when it is None (the remaining siblings are not searched)")
     zs = set(v for v, _ in zw)
     res.check(zs <= {"__", "-", "\\ "} and sum(1 for v, _ in zw if v == "__") >= 3, "R16.3", "zsh-separator", "clap_complete::aot::shells::zsh", "zsh function names: replace(' ', %s)" % sorted(zs), "zsh name mangling uses inconsistent separators %s" % sorted(zs))
